@@ -327,7 +327,7 @@ def _blocks(blocks, h, ch, out, rng, res, path, idx, live):
             h = fold(np, h, xs)
         elif k == "call":
             sub_out = {}
-            h = _blocks(b["m"]["blocks"], h, given or {}, sub_out, rng, res, p, idx, live)
+            h = _blocks(b["m"]["blocks"], F(h * b["g"]) if "g" in b else h, given or {}, sub_out, rng, res, p, idx, live)
             out[a] = sub_out
         elif k == "vcall":
             n = b["n"]
